@@ -1,8 +1,110 @@
-(* C15 — ui.json validation accepts exactly the valid values, statelessly.  (stub: statements are added below) *)
-From Coq Require Import String.
-From GV Require Import Prelude.Base Model.PyVal Model.UiRules Model.Enforcers Proofs.PyValProofs.
-From GVgen Require Import PyLite_SharedUtils PyLite_UiUtils PyLite_Validators.
+(* C15 — ui.json validation accepts exactly the valid values, statelessly.
+   Only statements, each closed by [exact] and followed by Print Assumptions.
 
-Theorem C15_stub : forall (a : pv), bind (Ok a) (fun x => Ok x) = Ok a.
-Proof. intros; reflexivity. Qed.
-Print Assumptions C15_stub.
+   requires_value, the six validate bodies and `iterable` are the PyLite translations of the current source
+   (coq/generated/PyLite_UiUtils.v, PyLite_Validators.v, PyLite_SharedUtils.v, regenerated on every run);
+   EnforcerPool / Parameter / Association-, PropertyGroup-, ShapeValidator / InputValidation.validate(_data) are the
+   hand models of Model/Enforcers.v (tied by correspondence). *)
+From Coq Require Import String.
+From GV Require Import Prelude.Base Model.PyVal Model.UiRules Model.Enforcers
+     Proofs.PyValProofs Proofs.UiRulesProofs Proofs.EnforcersProofs Proofs.ValidatorsProofs.
+From GVgen Require Import PyLite_SharedUtils PyLite_UiUtils PyLite_Validators.
+Local Open Scope string_scope.
+
+(* ---- the required / optional / enabled / dependency / group rules that decide whether None is allowed ---- *)
+
+(* requires_value never raises on a well-formed ui.json, whatever the number of parameters and group members ... *)
+Theorem C15_requires_value_total : forall d p,
+  wf_ui d = true -> dict_has (PStr p) d = true -> exists b, requires_value (PDict d) (PStr p) = Ok (PBool b).
+Proof. exact requires_value_total. Qed.
+Print Assumptions C15_requires_value_total.
+
+(* ... and it computes the groupOptional > dependency > optional hierarchy of its docstring (every switch combination:
+   the statement is universally quantified, not enumerated) *)
+Theorem C15_requires_value_spec : forall d p v,
+  wf_ui d = true -> dict_find (PStr p) d = Some v -> requires_value (PDict d) (PStr p) = Ok (PBool (rv_spec d v)).
+Proof. exact requires_value_spec. Qed.
+Print Assumptions C15_requires_value_spec.
+
+(* non-vacuity: a well-formed dictionary with a switched-off group, a "disabled" dependency and an optional parameter *)
+Example C15_wf_ui_nonvacuous :
+  let d := [ (PStr "sw",  PDict [(PStr "label", PStr "s"); (PStr "value", PBool false)]);
+             (PStr "g1",  PDict [(PStr "label", PStr "a"); (PStr "value", PInt 1); (PStr "group", PStr "G");
+                                 (PStr "groupOptional", PBool true); (PStr "enabled", PBool false)]);
+             (PStr "g2",  PDict [(PStr "label", PStr "b"); (PStr "value", PInt 2); (PStr "group", PStr "G")]);
+             (PStr "dep", PDict [(PStr "label", PStr "c"); (PStr "value", PInt 3); (PStr "dependency", PStr "sw");
+                                 (PStr "dependencyType", PStr "disabled"); (PStr "optional", PBool true)]) ] in
+  wf_ui d = true /\ requires_value (PDict d) (PStr "g2") = Ok (PBool false)
+  /\ requires_value (PDict d) (PStr "dep") = Ok (PBool true) /\ requires_value (PDict d) (PStr "sw") = Ok (PBool true).
+Proof. vm_compute. repeat split; reflexivity. Qed.
+
+(* ---- the validator chain accepts exactly the values that satisfy the declared constraints ---- *)
+
+(* accepted iff: None only where required/optional allow it, type, well-formed identifier, membership of the parent or
+   workspace, property-group type, choice list, shape; a rejection is always a validation error *)
+Theorem C15_accept_iff : forall W o name v rules, wf_rules v rules = true ->
+  (iv_validate W o name v (PDict rules) = Ok PNone <-> chain_ok W o name v rules = true)
+  /\ (chain_ok W o name v rules = false -> exists k, iv_validate W o name v (PDict rules) = Raise (Validation k)).
+Proof. exact accept_iff. Qed.
+Print Assumptions C15_accept_iff.
+
+Example C15_accept_iff_nonvacuous :
+  let rules := [(PStr "types", PList [PType TStr; PType TUuid; PType TEntity]); (PStr "uuid", PNone);
+                (PStr "association", PEnt KEntity 32%N); (PStr "optional", PBool false)] in
+  let W := {| w_ents := [(32%N, KEntity); (48%N, KEntity)]; w_desc := [(32%N, [48%N])] |} in
+  let o := {| ignore_requirements := false; ignore_list := [] |} in
+  wf_rules (PUuid 48%N) rules = true /\ chain_ok W o (PStr "q") (PUuid 48%N) rules = true
+  /\ chain_ok W o (PStr "q") (PUuid 49%N) rules = false /\ chain_ok W o (PStr "q") PNone rules = false.
+Proof. vm_compute. repeat split; reflexivity. Qed.
+
+(* an EnforcerPool accepts iff the rule of every enforcer holds *)
+Theorem C15_pool_accept_iff : forall es v,
+  (forall e, In e es -> exists b, enf_rule e v = Ok b) ->
+  (pool_verdict pool_enforce (fresh_pool es) v = Ok tt <-> forall e, In e es -> enf_rule e v = Ok true).
+Proof. exact pool_accept_iff. Qed.
+Print Assumptions C15_pool_accept_iff.
+
+(* ---- the verdict never depends on earlier validation calls ---- *)
+
+Theorem C15_pool_stateless : PoolStateless pool_enforce.
+Proof. exact pool_stateless. Qed.
+Print Assumptions C15_pool_stateless.
+
+Theorem C15_param_stateless : ParamStateless param_set.
+Proof. exact param_stateless. Qed.
+Print Assumptions C15_param_stateless.
+
+Theorem C15_validate_data_stateless : forall W o, IvStateless (iv_validate_data W o).
+Proof. exact validate_data_stateless. Qed.
+Print Assumptions C15_validate_data_stateless.
+
+(* ---- a rejected value leaves the stored data and the rule table unchanged ---- *)
+
+Theorem C15_param_rejected_unchanged : ParamRejectKeeps param_set.
+Proof. exact param_reject_keeps. Qed.
+Print Assumptions C15_param_rejected_unchanged.
+
+Theorem C15_param_accepted_stored : forall p v, snd (param_set p v) = Ok tt -> pm_val (fst (param_set p v)) = v.
+Proof. exact param_accept_stores. Qed.
+Print Assumptions C15_param_accepted_stored.
+
+Theorem C15_validate_data_keeps_table : forall W o vals data, fst (iv_validate_data W o vals data) = vals.
+Proof. exact validate_data_keeps_table. Qed.
+Print Assumptions C15_validate_data_keeps_table.
+
+(* ---- what the repairs changed: the same statements are false of the pre-repair transcriptions ---- *)
+
+(* [enforce 3; enforce "a"] on a pool with a type and a value enforcer: the stale aggregate is raised again *)
+Theorem C15_pool_old_code_refuted : ~ PoolStateless pool_enforce_old.
+Proof. exact pool_old_refuted. Qed.
+Print Assumptions C15_pool_old_code_refuted.
+
+(* the rejected 5 became the value of a StringParameter *)
+Theorem C15_param_old_code_refuted : ~ ParamRejectKeeps param_set_old.
+Proof. exact param_old_refuted. Qed.
+Print Assumptions C15_param_old_code_refuted.
+
+(* [all None; all None]: the second call was accepted because the first one popped the one_of rule *)
+Theorem C15_oneof_old_code_refuted : ~ IvStateless (iv_validate_data_gen true no_world no_opts).
+Proof. exact oneof_old_refuted. Qed.
+Print Assumptions C15_oneof_old_code_refuted.
